@@ -48,4 +48,9 @@ theorem api_cmd_constructors : Bmc.Gen.Facts.apiCmdConstructors = [
     ("dcmi.NewGetDCMICapabilitiesInfoOptionalPlatformAttrsCmd", "{ return &GetDCMICapabilitiesInfoOptionalPlatformAttrsCmd{ getDCMICapabilitiesInfoCmd: getDCMICapabilitiesInfoCmd{ Parameter: 3, }, } }"),
     ("dcmi.NewGetDCMICapabilitiesInfoSupportedCapabilitiesCmd", "{ return &GetDCMICapabilitiesInfoSupportedCapabilitiesCmd{ getDCMICapabilitiesInfoCmd: getDCMICapabilitiesInfoCmd{ Parameter: 1, }, } }")] := rfl
 
+/-- `ValidateResponse`: an error is passed on, a completion code other than Normal (00h) becomes an error, nothing else
+    (`Proto.Api.finish` applies exactly this rule) -/
+theorem validate_response : Bmc.Gen.Facts.validateResponseBody =
+    "{ if err != nil { return err } if c != ipmi.CompletionCodeNormal { return fmt.Errorf(\"received non-normal completion code: %v\", c) } return nil }" := rfl
+
 end Bmc.Proofs.ApiWrappers
